@@ -23,6 +23,8 @@ DISPATCH = {
     "C09": ("harness.props.g1", "run"),
     "C10": ("harness.props.c10", "run"),
     "C11": ("harness.props.c11", "run"),
+    "C12": ("harness.props.c12", "run"),
+    "C13": ("harness.props.c13", "run"),
     "C14": ("harness.props.c14", "run"),
     "C15": ("harness.props.c15", "run"),
     "C16": ("harness.props.c16", "run"),
